@@ -1,5 +1,6 @@
 import RisorModel.Util
 import RisorModel.C12.Model
+import RisorModel.C12.Virtual
 import RisorModel.Generated.C12
 /-!
 Line-protocol front end of the C12 model (requests after the leading `C12` field).
@@ -12,6 +13,14 @@ Line-protocol front end of the C12 model (requests after the leading `C12` field
              (`stale`: the guard `staleStd` of the known finding C12-std-stream-attr-cached),
              trace = observations joined by `|` (`A:Getenv($0)`, `R:…` real OS, `!sink` direct)
   ops                         the operation table: `name=goFn=ncalls` joined by `,`
+  vsess <cwd> <env> <tmp> <home> <cache> <config> <host> <pid> <uid> <args> <mounts> <steps>
+                              a session of script operations under a `VirtualOS` configured that way
+                              (`Virtual.lean`); strings hex, lists joined by `,`, env entries `k=v`,
+                              steps joined by `;`, each `name` or `name:arg` or `name:arg:arg`
+      reply: one TAB-separated field per step: `n` nil, `s<hex>` string, `i<n>` int, `l<hex,…>` list,
+             `e<k=v,…>` environment (any order), `E` error, `*` not modelled,
+             `p<item,…>` per path argument `!` (no mount) or `<target>:<path handed to its file system>`,
+             `t<target>:<tmp>:<pattern>` temporary directory
 
 The model runs on the inventory and facts regenerated from the source on this run
 (`Generated.C12`), which `Ties.lean` proves equal to the reviewed ones the theorems are about.
@@ -75,7 +84,81 @@ def parsePath (s : String) (p : Prog) : Option Prog :=
 
 def opOfName (s : String) : Option Op := allOps.find? (fun o => o.name == s)
 
+/-! ### the `VirtualOS` session model -/
+
+def hexList (s : String) : Option (List (List Nat)) :=
+  if s = "-" then some [] else (s.splitOn ",").mapM fromHex
+
+def hexEnv (s : String) : Option (List (List Nat × List Nat)) :=
+  if s = "-" then some [] else (s.splitOn ",").mapM fun kv =>
+    match kv.splitOn "=" with
+    | [k, v] => do
+      let k ← fromHex k
+      let v ← fromHex v
+      pure (k, v)
+    | _ => none
+
+def parseVOp (s : String) : Option V.VOp :=
+  match s.splitOn ":" with
+  | ["chdir", d] => (fromHex d).map V.VOp.chdir
+  | ["getwd"] => some .getwd
+  | ["abs", p] => (fromHex p).map V.VOp.abs
+  | ["setenv", k, v] => do
+    let k ← fromHex k
+    let v ← fromHex v
+    pure (.setenv k v)
+  | ["unsetenv", k] => (fromHex k).map V.VOp.unsetenv
+  | ["getenv", k] => (fromHex k).map V.VOp.getenv
+  | ["environ"] => some .environ
+  | ["tempdir"] => some .tempDir
+  | ["homedir"] => some .homeDir
+  | ["cachedir"] => some .cacheDir
+  | ["configdir"] => some .configDir
+  | ["hostname"] => some .hostname
+  | ["getpid"] => some .getpid
+  | ["getuid"] => some .getuid
+  | ["args"] => some .args
+  | ["lookup"] => some .lookup
+  | ["file", p] => (fromHex p).map fun p => V.VOp.file [p]
+  | ["file", p, q] => do
+    let p ← fromHex p
+    let q ← fromHex q
+    pure (.file [p, q])
+  | ["filecwd"] => some .fileCwd
+  | ["mkdirtemp", d, p] => do
+    let d ← fromHex d
+    let p ← fromHex p
+    pure (.mkdirTemp d p)
+  | ["opaque"] => some .opaque
+  | _ => none
+
+def showVOut : V.Out → String
+  | .nil => "n"
+  | .str s => "s" ++ toHexField s
+  | .int n => "i" ++ toString n
+  | .strs l => "l" ++ ",".intercalate (l.map toHexField)
+  | .env l => "e" ++ ",".intercalate (l.map fun kv => toHexField kv.1 ++ "=" ++ toHexField kv.2)
+  | .err => "E"
+  | .paths l => "p" ++ ",".intercalate (l.map fun
+      | none => "!"
+      | some m => toHexField m.1 ++ ":" ++ toHexField m.2)
+  | .temp t tmp pat => "t" ++ toHexField t ++ ":" ++ toHexField tmp ++ ":" ++ toHexField pat
+  | .any => "*"
+
+def handleVSess : List String → String
+  | [cwd, env, tmp, home, cache, confd, host, pid, uid, args, mounts, steps] =>
+    match fromHex cwd, hexEnv env, fromHex tmp, fromHex home, fromHex cache, fromHex confd,
+        fromHex host, pid.toNat?, uid.toNat?, hexList args, hexList mounts,
+        (steps.splitOn ";").mapM parseVOp with
+    | some cwd, some env, some tmp, some home, some cache, some confd, some host, some pid, some uid,
+        some args, some mounts, some ops =>
+      let c : V.Cfg := ⟨cwd, env, tmp, home, cache, confd, host, pid, uid, args, mounts⟩
+      "\t".intercalate ((V.vrun c ops).map showVOut)
+    | _, _, _, _, _, _, _, _, _, _, _, _ => "error\tbad-request"
+  | _ => "error\tbad-request"
+
 def handle : List String → String
+  | "vsess" :: rest => handleVSess rest
   | ["hist", evs, path, opn] =>
     match (evs.splitOn ",").mapM parseEv, opOfName opn with
     | some evs, some o =>
